@@ -199,5 +199,6 @@ func PKCS1v15() RSA {
 
 func init() {
 	RegisterDecrypter(OAEP())
+	RegisterDecrypter(OAEP_SHA256()) // the xmlenc11 identifier; the digest is taken from the DigestMethod element
 	RegisterDecrypter(PKCS1v15())
 }
